@@ -166,7 +166,8 @@ void partAssignCase(const JV& c, size_t k, const char* ver, std::string& out) {
 	// "the same holds after vertex deletion": a vertex that only some triangles use goes; the labels are read back again.
 	// (Only when every triangle is in a partition: unassigned ones are C10's DeletePartitions business.)
 	if (nt >= 2 && std::find(tp.begin(), tp.end(), -1) == tp.end() && !tp.empty()) {
-		std::vector<uint16_t> idx = {uint16_t(nt + 1)}; // the last fan vertex: used by the last triangle only
+		std::vector<uint16_t> idx = {uint16_t(1)}; // the first rim vertex of the fan: used by the first triangle only; every other
+												   // triangle survives, renumbered, and the partitions' vertex maps shrink in front
 		ContentIds id2;
 		std::string s1 = projectShape(nif, shape, id2);
 		bool all = nif.DeleteVertsForShape(shape, idx);
